@@ -2005,14 +2005,9 @@ func ruleXCH5(c *Ctx) {
 			if !ok {
 				return true
 			}
-			isGlobals := false
-			if f, _ := FieldSel(p, ix.X); f != nil && f.Name() == "globals" {
-				isGlobals = true
-			}
-			if id, ok := ast.Unparen(ix.X).(*ast.Ident); ok && id.Name == "globals" {
-				isGlobals = true
-			}
-			if t := p.TypesInfo.Types[ix.X].Type; !isGlobals || t == nil || types.TypeString(t, func(*types.Package) string { return "" }) != "[]Object" {
+			// any store into a slice of Objects in these two functions is the
+			// store into the globals (whatever the slice is called)
+			if t := p.TypesInfo.Types[ix.X].Type; t == nil || types.TypeString(t, func(*types.Package) string { return "" }) != "[]Object" {
 				return true
 			}
 			n++
